@@ -1658,8 +1658,20 @@ impl World {
                             match de::<$ty>(&b) {
                                 Out::Ok(x) => {
                                     if x != $obj {
-                                        self.finding("C13", format!("roundtrip-not-equal:{}", $name), format!("deserialize(serialize(x)) != x ({} bytes)", b.len()));
-                                        None
+                                        if self.p.prop == "C13" {
+                                            self.finding("C13", format!("roundtrip-not-equal:{}", $name), format!("deserialize(serialize(x)) != x ({} bytes)", b.len()));
+                                            None
+                                        } else {
+                                            // recorded for C13, but the history goes on with the copy (as a
+                                            // user would): the consequences belong to this profile's property
+                                            self.stats.findings.push(Finding {
+                                                prop: "C13".into(),
+                                                signature: format!("C13:roundtrip-not-equal:{}", $name),
+                                                detail: "deserialize(serialize(x)) != x".into(),
+                                                replay: self.replay.clone(),
+                                            });
+                                            Some(x)
+                                        }
                                     } else {
                                         self.stats.bump("roundtrips_ok");
                                         Some(x)
@@ -1806,8 +1818,22 @@ impl Gen {
     /// A policy that is invalid on purpose; returns the documented reason.
     fn invalid_policy(&mut self, st: &MStruct, for_encryption: bool) -> Pol {
         let attrs = st.all_attrs();
-        match self.rng.below(if for_encryption { 3 } else { 2 }) {
+        match self.rng.below(if for_encryption { 3 } else { 4 }) {
             0 => Pol::attr("Nope", "A"),
+            // an unknown attribute before / after a known one of the same dimension
+            2 | 3 if !for_encryption => {
+                if let Some((d, a)) = attrs.first() {
+                    let known = Pol::attr(d, &a.name);
+                    let ghost = Pol::attr(d, "Ghost");
+                    if self.rng.chance(1, 2) {
+                        Pol::And(vec![ghost, known])
+                    } else {
+                        Pol::And(vec![known, ghost])
+                    }
+                } else {
+                    Pol::attr("Nope", "A")
+                }
+            }
             1 => {
                 if let Some((d, _)) = attrs.first() {
                     Pol::attr(d, "Missing")
